@@ -16,21 +16,42 @@ import (
 // executions from equal pre-states with equal touched sets and equal digests have equal post-states.
 type TDB struct {
 	*state.StateDB
-	addrs map[common.Address]struct{}
-	slots map[common.Address]map[common.Hash]struct{}
+	addrs map[common.Address]string                      // address -> rendering of the account before its first mutation
+	slots map[common.Address]map[common.Hash]common.Hash // slot -> value before its first write
+	delEmpty bool
 	// counters for C20
 	Reads, Writes uint64
 }
 
 func NewTDB(db *state.StateDB) *TDB {
-	return &TDB{StateDB: db, addrs: map[common.Address]struct{}{}, slots: map[common.Address]map[common.Hash]struct{}{}}
+	return &TDB{StateDB: db, addrs: map[common.Address]string{}, slots: map[common.Address]map[common.Hash]common.Hash{}}
 }
 
-func (t *TDB) touch(a common.Address) { t.addrs[a] = struct{}{} }
+func (t *TDB) touch(a common.Address) {
+	if _, ok := t.addrs[a]; !ok {
+		t.addrs[a] = t.acct(a, t.delEmpty)
+	}
+}
+
+// SetDeleteEmpty fixes the EIP-161 rendering rule for this execution (must be set before the first mutation).
+func (t *TDB) SetDeleteEmpty(b bool) { t.delEmpty = b }
+
+func (t *TDB) acct(a common.Address, deleteEmpty bool) string {
+	db := t.StateDB
+	switch {
+	case !db.Exist(a):
+		return "absent"
+	case db.HasSuicided(a):
+		return "suicided bal=" + db.GetBalance(a).String()
+	case deleteEmpty && db.Empty(a):
+		return "empty-deleted"
+	}
+	return fmt.Sprintf("bal=%s nonce=%d code=%x", db.GetBalance(a), db.GetNonce(a), db.GetCodeHash(a).Bytes()[:6])
+}
 
 func (t *TDB) ResetTouched() {
-	t.addrs = map[common.Address]struct{}{}
-	t.slots = map[common.Address]map[common.Hash]struct{}{}
+	t.addrs = map[common.Address]string{}
+	t.slots = map[common.Address]map[common.Hash]common.Hash{}
 	t.Reads, t.Writes = 0, 0
 }
 
@@ -52,10 +73,12 @@ func (t *TDB) SetState(a common.Address, k, v common.Hash) {
 	t.Writes++
 	m := t.slots[a]
 	if m == nil {
-		m = map[common.Hash]struct{}{}
+		m = map[common.Hash]common.Hash{}
 		t.slots[a] = m
 	}
-	m[k] = struct{}{}
+	if _, ok := m[k]; !ok {
+		m[k] = t.StateDB.GetState(a, k)
+	}
 	t.StateDB.SetState(a, k, v)
 }
 func (t *TDB) Suicide(a common.Address) bool { t.touch(a); t.Writes++; return t.StateDB.Suicide(a) }
@@ -71,9 +94,15 @@ func (t *TDB) GetCommittedState(a common.Address, k common.Hash) common.Hash {
 func (t *TDB) GetBalance(a common.Address) *big.Int { t.Reads++; return t.StateDB.GetBalance(a) }
 func (t *TDB) GetCode(a common.Address) []byte      { t.Reads++; return t.StateDB.GetCode(a) }
 
-// Digest renders the post-state of every mutated account and slot. With deleteEmpty (EIP-161) an existing but
-// empty touched account is reported as deleted, which is what the end-of-transaction finalisation would do.
+// Digest renders the state DELTA: every mutated account whose rendering differs from the one before its first
+// mutation, and every written slot whose value differs from the one before its first write. Entries that were
+// touched but ended up unchanged do not appear, so the digest is canonical: from equal pre-states, equal
+// digests <=> equal post-states. With deleteEmpty (EIP-161) an existing but empty account is rendered as
+// deleted, which is what the end-of-transaction finalisation would do.
 func (t *TDB) Digest(deleteEmpty bool) string {
+	if deleteEmpty != t.delEmpty {
+		panic("world: TDB delete-empty rule changed after first mutation")
+	}
 	as := make([]common.Address, 0, len(t.addrs))
 	for a := range t.addrs {
 		as = append(as, a)
@@ -81,30 +110,24 @@ func (t *TDB) Digest(deleteEmpty bool) string {
 	sort.Slice(as, func(i, j int) bool { return string(as[i][:]) < string(as[j][:]) })
 	var sb strings.Builder
 	for _, a := range as {
-		db := t.StateDB
-		switch {
-		case !db.Exist(a):
-			fmt.Fprintf(&sb, "%x:absent;", a[:])
-			continue
-		case db.HasSuicided(a):
-			fmt.Fprintf(&sb, "%x:suicided bal=%s;", a[:], db.GetBalance(a))
-			continue
-		case deleteEmpty && db.Empty(a):
-			fmt.Fprintf(&sb, "%x:empty-deleted;", a[:])
-			continue
-		}
-		fmt.Fprintf(&sb, "%x:bal=%s nonce=%d code=%x", a[:], db.GetBalance(a), db.GetNonce(a), db.GetCodeHash(a).Bytes()[:6])
-		if m := t.slots[a]; len(m) > 0 {
+		now := t.acct(a, deleteEmpty)
+		var slots string
+		if m := t.slots[a]; len(m) > 0 && !strings.HasPrefix(now, "absent") && !strings.HasPrefix(now, "empty-deleted") && !strings.HasPrefix(now, "suicided") {
 			ks := make([]common.Hash, 0, len(m))
 			for k := range m {
 				ks = append(ks, k)
 			}
 			sort.Slice(ks, func(i, j int) bool { return string(ks[i][:]) < string(ks[j][:]) })
 			for _, k := range ks {
-				fmt.Fprintf(&sb, " [%x]=%x", trimZeros(k[:]), trimZeros(db.GetState(a, k).Bytes()))
+				if v := t.StateDB.GetState(a, k); v != m[k] {
+					slots += fmt.Sprintf(" [%x]=%x", trimZeros(k[:]), trimZeros(v.Bytes()))
+				}
 			}
 		}
-		sb.WriteString(";")
+		if now == t.addrs[a] && slots == "" {
+			continue
+		}
+		fmt.Fprintf(&sb, "%x:%s%s;", a[:], now, slots)
 	}
 	return sb.String()
 }
